@@ -102,6 +102,15 @@ package state
 //@   atcall getStateObject set gObj = result
 //@   atcall setCode assert [code-restored-on-the-recorded-account] arg_self == gObj && arg_code == ch.prevcode && calls(getStateObject) == 1
 //@   ensures  calls(setCode) == 1
+// the restored code may never have reached the database (it can be younger than the last commit): it stays marked for
+// the next commit
+//@   ensures  [restored-code-is-written-at-the-next-commit] gObj.code == ch.prevcode && gObj.dirtyCode
+
+//@ func (*stateObject).setCode
+//@   props C11
+//@   aborts when self == nil
+//@   assigns  self.code, self.data.CodeHash, self.dirtyCode
+//@   ensures  [code-installed-and-marked-for-commit] self.code == code && self.dirtyCode && len(self.data.CodeHash) == 32
 
 //@ func (suicideChange).revert
 //@   props C11
